@@ -78,6 +78,7 @@ let table : (string * (sexp -> sexp)) list = [
   ("C17", run_C17);
   ("C19", run_C19);
   ("C11", run_C11);
+  ("C13", run_C13);
 ]
 
 let () =
